@@ -499,6 +499,19 @@ pub fn run(ctx: &Ctx) -> i32 {
         st.exhaustive.push("String / Vec receivers in 1..=4-page allocations aligned at both ends x used lengths around every page boundary x capacity ending 0/1/16 bytes before the boundary x 4 receiver methods x 6 encodings x short inputs".into());
     }
     if !fw::should_stop() {
+        // the buffer-length queries are public functions too: whatever state the converter is in and
+        // however large the length, they must answer (Some / None), not panic.  (Whether the answer
+        // is right is C07's question; only panics are kept here.)
+        let mut q = super::c07::overflow_family(ctx);
+        q.violations.retain(|v| v.msg.contains("panicked"));
+        for v in q.violations.iter_mut() {
+            v.sig = "C06:query-panic".into();
+        }
+        q.exhaustive.clear();
+        st.merge(q);
+        st.exhaustive.push("every max_* query x ~70 lengths up to usize::MAX x every decoder state reachable by an atom / atom-pair / BOM look-alike prefix (3 BOM modes) and encoder states: no panic".into());
+    }
+    if !fw::should_stop() {
         st.merge(one_shot_no_panic(ctx));
         st.exhaustive.push("one-shot decode* on every sequence of up to three atoms (9 bytes) and Encoding::encode on alphabet triples, all 40 encodings: no panic".into());
     }
@@ -539,6 +552,12 @@ pub fn replay(case: &serde_json::Value) -> Option<Vec<fw::Violation>> {
         Some("mem") => memfam::replay_mem(case, "C06", false),
         Some("enc_history") => ench::replay_with(case, &ench::verdict_c06),
         Some("dec_history") => dech::replay_with(case, &dech::verdict_c06),
+        Some("c07_overflow_dec") | Some("c07_overflow_enc") => {
+            let ctx = Ctx { prop: "C06".into(), tier: fw::Tier::Quick, seed: 0, threads: 4, scale: 1.0 };
+            let mut q = super::c07::overflow_family(&ctx);
+            q.violations.retain(|v| v.msg.contains("panicked"));
+            Some(q.violations)
+        }
         Some("c06_one_shot_dec") => {
             let enc = encs::by_const(case.get("encoding")?.as_str()?)?;
             let b = fw::unhex(case.get("bytes_hex")?.as_str()?);
